@@ -56,7 +56,7 @@ class NestingViolationBuilder(BaseViolationBuilder):
         return self.build_from_params(
             rule_id=self.rule_id,
             file_path=str(context.file_path or ""),
-            line=error.lineno or 0,
+            line=error.lineno or 1,  # no position (e.g. NUL byte in the source): first line, lines are 1-based
             column=error.offset or 0,
             message=f"Syntax error: {error.msg}",
             severity=Severity.ERROR,
